@@ -64,6 +64,7 @@ def minimums(tier):
             "dual_certificates_checked": 500,
             "snapshot_checks": 200,
             "accessor_checks": 300,
+            "chain_calls": 1000,
         },
         "sets": {"interfaces": 2, "call_forms": 6},
     }
@@ -73,6 +74,7 @@ def plan(tier, seed):
     n = 16 if tier == "quick" else 64
     per = 45 if tier == "quick" else 300
     out = [{"kind": "generated", "cases": per, "base": seed * 1000003 + k} for k in range(n)]
+    out += [{"kind": "chain", "cases": 25 if tier == "quick" else 200, "base": seed * 1000003 + 700 + k} for k in range(8 if tier == "quick" else 32)]
     out += [{"kind": "bundled", "model": m, "cases": 40 if tier == "quick" else 200, "base": seed * 1000003 + 500 + i} for i, m in enumerate(["textbook", "mini", "textbook", "mini"] if tier == "quick" else ["textbook", "mini"] * 8)]
     return out
 
@@ -336,6 +338,64 @@ def make_variant(rng, rec, kind):
     return rec
 
 
+def _call(model, rng, form, acc, ident, want_direction):
+    from cobra.exceptions import Infeasible, OptimizationError, Unbounded
+
+    acc.add("call_forms", form)
+    ident["form"] = form
+    sol = None
+    try:
+        if form == "optimize()":
+            sol = model.optimize()
+        elif form == "optimize(maximize)":
+            sol = model.optimize("maximize")
+        elif form == "optimize(minimize)":
+            sol = model.optimize("minimize")
+        elif form == "optimize(raise_error)":
+            sol = model.optimize(raise_error=True)
+        elif form == "slim()":
+            model.slim_optimize()
+        elif form == "slim(error_value=-7)":
+            model.slim_optimize(error_value=-7.0)
+        else:
+            model.slim_optimize(error_value=None)
+            # returned normally: there must be an optimum (the postcondition
+            # compared the value)
+    except OptimizationError as e:
+        acc.ev()
+        acc.count("optimization_errors_raised")
+        ex = exact_of(model)[0]
+        if form in ("optimize(maximize)", "optimize(minimize)"):
+            lp_, col_, c_, _d = gen.model_lp(model)
+            ex = lp_.solve(c_, "max" if "max" in form else "min")
+        if form in ("slim(error_value=None)", "optimize(raise_error)"):
+            direction_flip = False
+            if ex.status == "optimal":
+                acc.violation(f"C04/{form}/raised-although-optimum-exists", f"{form} raised {type(e).__name__} but the optimum {float(ex.obj)} exists", dict(ident))
+            elif form == "slim(error_value=None)":
+                status = model.solver.status
+                from cobra.exceptions import OPTLANG_TO_EXCEPTIONS_DICT
+
+                want = OPTLANG_TO_EXCEPTIONS_DICT.get(status, OptimizationError)
+                if type(e) is not want:
+                    acc.violation("C04/slim_optimize/exception-class", f"status {status} raised {type(e).__name__}, mapped class is {want.__name__}", dict(ident))
+                if ex.status == "infeasible" and isinstance(e, Unbounded) or ex.status == "unbounded" and isinstance(e, Infeasible):
+                    acc.violation("C04/slim_optimize/exception-contradicts-truth", f"raised {type(e).__name__} but the problem is {ex.status}", dict(ident))
+        elif form.startswith("optimize"):
+            # optimize() without raise_error may raise for statuses without primal values
+            if ex.status == "optimal":
+                acc.violation(f"C04/{form}/raised-although-optimum-exists", f"{form} raised {type(e).__name__}: {e}", dict(ident))
+        else:
+            acc.violation(f"C04/{form}/raised", f"{form} raised {type(e).__name__}: {e}", dict(ident))
+        return
+    # direction must be back
+    if model.objective_direction != want_direction:
+        acc.violation("C04/optimize/direction-not-restored", f"objective direction is {model.objective_direction} after {form}", dict(ident))
+    if sol is not None and sol.status == "optimal":
+        check_accessors(acc, model, sol, ident)
+        check_snapshot(acc, rng, model, sol, ident)
+
+
 def run_generated(desc, acc):
     import cobra
     from cobra.exceptions import Infeasible, OptimizationError, Unbounded
@@ -386,61 +446,9 @@ def run_generated(desc, acc):
                 ident["edit"] = [r.id, list(b)]
             forms = rng.sample(["optimize()", "optimize(maximize)", "optimize(minimize)", "slim()", "slim(error_value=-7)", "slim(error_value=None)", "optimize(raise_error)"], 4)
             for form in forms:
-                acc.add("call_forms", form)
-                ident["form"] = form
                 if nontrivial:
                     acc.nontrivial(sig, interface, form, history)
-                sol = None
-                try:
-                    if form == "optimize()":
-                        sol = model.optimize()
-                    elif form == "optimize(maximize)":
-                        sol = model.optimize("maximize")
-                    elif form == "optimize(minimize)":
-                        sol = model.optimize("minimize")
-                    elif form == "optimize(raise_error)":
-                        sol = model.optimize(raise_error=True)
-                    elif form == "slim()":
-                        model.slim_optimize()
-                    elif form == "slim(error_value=-7)":
-                        model.slim_optimize(error_value=-7.0)
-                    else:
-                        model.slim_optimize(error_value=None)
-                        # returned normally: there must be an optimum (the postcondition
-                        # compared the value)
-                except OptimizationError as e:
-                    acc.ev()
-                    acc.count("optimization_errors_raised")
-                    ex = exact_of(model)[0]
-                    if form in ("optimize(maximize)", "optimize(minimize)"):
-                        lp_, col_, c_, _d = gen.model_lp(model)
-                        ex = lp_.solve(c_, "max" if "max" in form else "min")
-                    if form in ("slim(error_value=None)", "optimize(raise_error)"):
-                        direction_flip = False
-                        if ex.status == "optimal":
-                            acc.violation(f"C04/{form}/raised-although-optimum-exists", f"{form} raised {type(e).__name__} but the optimum {float(ex.obj)} exists", dict(ident))
-                        elif form == "slim(error_value=None)":
-                            status = model.solver.status
-                            from cobra.exceptions import OPTLANG_TO_EXCEPTIONS_DICT
-
-                            want = OPTLANG_TO_EXCEPTIONS_DICT.get(status, OptimizationError)
-                            if type(e) is not want:
-                                acc.violation("C04/slim_optimize/exception-class", f"status {status} raised {type(e).__name__}, mapped class is {want.__name__}", dict(ident))
-                            if ex.status == "infeasible" and isinstance(e, Unbounded) or ex.status == "unbounded" and isinstance(e, Infeasible):
-                                acc.violation("C04/slim_optimize/exception-contradicts-truth", f"raised {type(e).__name__} but the problem is {ex.status}", dict(ident))
-                    elif form.startswith("optimize"):
-                        # optimize() without raise_error may raise for statuses without primal values
-                        if ex.status == "optimal":
-                            acc.violation(f"C04/{form}/raised-although-optimum-exists", f"{form} raised {type(e).__name__}: {e}", dict(ident))
-                    else:
-                        acc.violation(f"C04/{form}/raised", f"{form} raised {type(e).__name__}: {e}", dict(ident))
-                    continue
-                # direction must be back
-                if model.objective_direction != rec["direction"]:
-                    acc.violation("C04/optimize/direction-not-restored", f"objective direction is {model.objective_direction} after {form}", dict(ident))
-                if sol is not None and sol.status == "optimal":
-                    check_accessors(acc, model, sol, ident)
-                    check_snapshot(acc, rng, model, sol, ident)
+                _call(model, rng, form, acc, ident, rec["direction"])
         except PostBroken as e:
             acc.harness_error("contract raised", e)
         except AssertionError as e:
@@ -551,15 +559,127 @@ def run_bundled(desc, acc):
             acc.sample({"bundled": desc["model"], "edits": edits})
 
 
+FORMS = ["optimize()", "optimize(maximize)", "optimize(minimize)", "slim()", "slim(error_value=-7)", "slim(error_value=None)", "optimize(raise_error)"]
+INF = float("inf")
+BOUND_MENU = [(0, 5), (-3, 3), (0, 0), (1, 2), (-1000, 1000), (-INF, INF), (0, INF), (-INF, 0), (5, 10), (-10, -5), (0, 1000), (-1000, 0), (2.5, 2.5)]
+
+
+def run_chain(desc, acc):
+    """Warm-start chains: one solver object goes through 6-16 edits (bounds incl. infinite and
+    forced ones, objective, direction, knock-outs in a context, reactions added / removed) with
+    a judged call after every edit - the basis GLPK starts from is the previous optimum,
+    infeasible or unbounded state."""
+    import cobra
+    from cobra.exceptions import OptimizationError
+
+    install_contracts()
+    for case in range(desc["cases"]):
+        rng = gen.rng_for("C04chain", desc["base"], case)
+        rec = gen.network(rng, genes=0)
+        start = rng.choice(["plain", "plain", "unbounded", "unbounded", "infeasible"])
+        if start != "plain":
+            rec = make_variant(rng, rec, start)
+        with warnings.catch_warnings():
+            warnings.simplefilter("ignore")
+            model = gen.build(rec)
+        interface = rng.choice(["glpk", "glpk", "glpk_exact"])
+        if interface != "glpk":
+            model.solver = interface
+        acc.add("interfaces", interface)
+        steps = []
+        ident = {"base": desc["base"], "case": case, "chain": True, "interface": interface, "history": "chain", "steps": steps}
+        _ACC.update(acc=acc, ctx=ident, armed=True, exact=True)
+        sig = gen.recipe_sig(rec)
+        statuses = []
+        added = 0
+        try:
+            for step in range(rng.randint(6, 16)):
+                kind = rng.choice(["bounds", "bounds", "bounds", "objective", "objective=", "direction", "close", "open", "knockout-ctx", "add", "remove", "none"])
+                rxns = list(model.reactions)
+                ctx = None
+                if kind == "bounds" and rxns:
+                    r = rng.choice(rxns)
+                    b = rng.choice(BOUND_MENU)
+                    r.bounds = b
+                    steps.append(["bounds", r.id, [str(x) for x in b]])
+                elif kind == "objective" and rxns:
+                    r = rng.choice(rxns)
+                    k = rng.choice([0, 1, -1, 2.5, 1])
+                    r.objective_coefficient = k
+                    steps.append(["objective_coefficient", r.id, k])
+                elif kind == "objective=" and rxns:
+                    rs = rng.sample(rxns, min(len(rxns), rng.randint(1, 2)))
+                    model.objective = {r: rng.choice([1, 1, -1, 3]) for r in rs}
+                    steps.append(["objective=", [r.id for r in rs]])
+                elif kind == "direction":
+                    model.objective_direction = "min" if model.objective_direction == "max" else "max"
+                    steps.append(["direction", model.objective_direction])
+                elif kind == "close":
+                    for r in model.exchanges:
+                        r.bounds = (0, 0)
+                    steps.append(["close-exchanges"])
+                elif kind == "open":
+                    b = rng.choice([(-INF, INF), (-1000, 1000), (-10, INF)])
+                    for r in model.exchanges:
+                        r.bounds = b
+                    steps.append(["open-exchanges", [str(x) for x in b]])
+                elif kind == "knockout-ctx" and rxns:
+                    r = rng.choice(rxns)
+                    ctx = r
+                    steps.append(["knock-out-in-context", r.id])
+                elif kind == "add" and len(model.metabolites) >= 2:
+                    added += 1
+                    new = cobra.Reaction(f"NEW{added}", lower_bound=rng.choice([0, -5, -INF]), upper_bound=rng.choice([5, 1000, INF]))
+                    ms = rng.sample(list(model.metabolites), 2)
+                    new.add_metabolites({ms[0]: -1, ms[1]: rng.choice([1, 2])})
+                    model.add_reactions([new])
+                    steps.append(["add", new.id, {m.id: c for m, c in new.metabolites.items()}, [str(x) for x in new.bounds]])
+                elif kind == "remove" and len(rxns) > 3:
+                    r = rng.choice(rxns)
+                    model.remove_reactions([r])
+                    steps.append(["remove", r.id])
+                else:
+                    steps.append(["none"])
+                acc.journal(dict(base=desc["base"], case=case, step=step, about_to_run="chain-call"))
+                for form in rng.sample(FORMS, rng.randint(1, 2)):
+                    acc.count("chain_calls")
+                    want = model.objective_direction
+                    if ctx is not None:
+                        with model:
+                            ctx.knock_out()
+                            _call(model, rng, form, acc, ident, want)
+                    else:
+                        _call(model, rng, form, acc, ident, want)
+                    st = exact_of(model)[0].status if ctx is None else None
+                    if st:
+                        if statuses and statuses[-1] != st:
+                            acc.count(f"chain_transition_{statuses[-1]}->{st}")
+                        statuses.append(st)
+                        acc.nontrivial(sig, interface, "chain", step, st)
+        except PostBroken as e:
+            acc.harness_error("contract raised", e)
+        except AssertionError as e:
+            acc.harness_error("oracle", e)
+        finally:
+            _ACC["armed"] = False
+        if case < 1:
+            acc.sample({"chain": steps[:8], "interface": interface, "statuses": statuses[:12]})
+        acc.checkpoint()
+
+
 def run_shard(desc, acc):
     if desc["kind"] == "generated":
         run_generated(desc, acc)
+    elif desc["kind"] == "chain":
+        run_chain(desc, acc)
     else:
         run_bundled(desc, acc)
 
 
 def replay(w, acc):
-    if "model" in w:
+    if w.get("chain"):
+        run_chain({"base": w["base"], "cases": w["case"] + 1}, acc)
+    elif "model" in w:
         run_bundled({"model": w["model"], "base": w["base"], "cases": w["case"] + 1}, acc)
     else:
         run_generated({"base": w["base"], "cases": w["case"] + 1}, acc)
